@@ -144,7 +144,10 @@ func (m *Machine) callBuiltin(fn *ssa.Builtin, args []Value, site ssa.Instructio
 		case *Value:
 			return m.C.BV(64, uint64(len((*x).(Array))))
 		case *Chan:
-			return m.C.BV(64, 0)
+			if x == nil {
+				return m.C.BV(64, 0)
+			}
+			return m.C.BV(64, uint64(x.Cap))
 		}
 	case "append":
 		s, _ := args[0].(Slice)
@@ -211,10 +214,7 @@ func (m *Machine) callBuiltin(fn *ssa.Builtin, args []Value, site ssa.Instructio
 		return nil
 	case "close":
 		ch, _ := args[0].(*Chan)
-		if ch == nil {
-			panic(targetPanic{msg: "close of nil channel", stack: m.stackString()})
-		}
-		ch.Closed = true
+		m.chanClose(ch)
 		return nil
 	case "recover":
 		return m.doRecover()
